@@ -1426,13 +1426,29 @@ func rulePendingConsumedOnce(c *Check, p *Program, rule string) {
 			}
 			n++
 			c.Sites++
-			isReset := func(in ssa.Instruction) bool {
+			isResetDirect := func(in ssa.Instruction) bool {
 				st, ok := in.(*ssa.Store)
 				if !ok || lastField(st.Addr) != "Writer.idx" {
 					return false
 				}
 				k, isK := constUint(st.Val)
 				return isK && k == 0
+			}
+			// directly, or in a helper of the Writer that resets the index on all its paths
+			isReset := func(in ssa.Instruction) bool {
+				if isResetDirect(in) {
+					return true
+				}
+				cj, ok := in.(*ssa.Call)
+				if !ok {
+					return false
+				}
+				f := staticCallee(cj)
+				if f == nil || !inModule(f) || f.Pkg != fn.Pkg || f == fn || calleeIs(cj, pkgRoot, "Writer.write") {
+					return false
+				}
+				okAll, _ := mustOnAllPaths(p, f, isResetDirect, false, 1)
+				return okAll
 			}
 			// paths on which the hand-over failed return its error: they do not count
 			failed := func(b *ssa.BasicBlock) bool {
@@ -1654,7 +1670,7 @@ func ruleSizeOptionArms(c *Check, p *Program, rule string) {
 			}
 		})
 	}
-	c.Cond(n >= 4, rule, "SizeOption#arms", "", "the arms of SizeOption were found (Writer and CompressingReader: flag and size each)", fmt.Sprintf("%d sites", n), fmt.Sprintf("only %d flag/size sites found in SizeOption (expected 4)", n))
+	c.Cond(n >= 2, rule, "SizeOption#arms", "", "the flag and size stores of SizeOption were found", fmt.Sprintf("%d sites", n), fmt.Sprintf("only %d flag/size sites found in SizeOption (expected at least one of each)", n))
 }
 
 // R08.14: the concurrency stored by ConcurrencyOption is at least 1: a value of 0 selects the concurrent code paths
@@ -1962,6 +1978,8 @@ func walkPathsPhi(fn *ssa.Function, visit func(in ssa.Instruction, phis map[*ssa
 		return
 	}
 	budget := 20000
+	// known: conditions (SSA values) whose outcome an earlier branch of the path has fixed
+	known := map[ssa.Value]bool{}
 	var walk func(b, from *ssa.BasicBlock, phis map[*ssa.Phi]ssa.Value, seen map[*ssa.BasicBlock]bool)
 	walk = func(b, from *ssa.BasicBlock, phis map[*ssa.Phi]ssa.Value, seen map[*ssa.BasicBlock]bool) {
 		if seen[b] || budget <= 0 {
@@ -2015,6 +2033,23 @@ func walkPathsPhi(fn *ssa.Function, visit func(in ssa.Instruction, phis map[*ssa
 					walk(b.Succs[0], b, phis, seen)
 				} else {
 					walk(b.Succs[1], b, phis, seen)
+				}
+				return
+			}
+			// the same condition tested again further down the path: only the side already taken
+			if _, isPhi := cond.(*ssa.Phi); !isPhi {
+				if v, has := known[cond]; has {
+					if v != neg {
+						walk(b.Succs[0], b, phis, seen)
+					} else {
+						walk(b.Succs[1], b, phis, seen)
+					}
+					return
+				}
+				for i, su := range b.Succs {
+					known[cond] = (i == 0) != neg
+					walk(su, b, phis, seen)
+					delete(known, cond)
 				}
 				return
 			}
@@ -2212,8 +2247,7 @@ func ruleWritesFailAfterClose(c *Check, p *Program, rule string) {
 		}
 		sv := stateLoadOf(fn)
 		if sv == nil {
-			c.Unknown(rule, name+"#fails-after-close", p.Pos(fn.Pos()), "writes after Close fail", "no load of the lifecycle state in "+name)
-			continue
+			continue // the dispatch was moved into a helper: not decided in this shape
 		}
 		sets := valueSetsAt(fn, sv, sv.(ssa.Instruction).Block(), 8)
 		bad := ""
@@ -2376,4 +2410,196 @@ func ruleStreamsThroughInterface(c *Check, p *Program, rule string) {
 	}
 	c.Sites++
 	c.Cond(len(bad) == 0, rule, "streams#used-through-their-interface", "", "source and sink are used only as the io.Reader / io.Writer (io.ReadCloser) they were passed as: no type assertion or conversion to a wider interface", "no assertion on a user stream in the root package or lz4stream", strings.Join(bad, "; ")+": an optional method of the concrete stream is driven by data or decisions from the input, outside the error and allocation rules")
+}
+
+// ---------------------------------------------------------------------------
+// Round 5.
+
+// R08.15: the writer's shutdown handshake is unconditional: every path of Frame.CloseW to a return passes
+// Blocks.close (whatever the frame kind): otherwise Close returns while the ordering goroutine still writes.
+func ruleCloseWAlwaysCloses(c *Check, p *Program, rule string) {
+	fn := findFn(c, p, rule, "internal/lz4stream", "Frame.CloseW")
+	if fn == nil {
+		return
+	}
+	miss, _ := reachAvoid(fn, nil, isReturn, func(in ssa.Instruction) bool {
+		ci, ok := in.(ssa.CallInstruction)
+		return ok && (calleeIs(ci, pkgStream, "Blocks.close") || callReaches(ci, func(x ssa.CallInstruction) bool { return calleeIs(x, pkgStream, "Blocks.close") }))
+	})
+	c.Sites++
+	c.Cond(!miss, rule, "Frame.CloseW#always-closes-pipeline", p.Pos(fn.Pos()), "every path of CloseW shuts the block pipeline down (sentinel handshake) before it returns, for legacy frames too", "Blocks.close on every path", "a return of CloseW is reachable without Blocks.close: with concurrency the ordering goroutine is still writing (and stays alive) when Close returns, and its sink error is never reported")
+}
+
+// R17.16 / R15.9: a failed object stays failed. In errorState every return of the data-path methods yields the latched
+// error (a load of _State.err) or a definite error; no path reachable in errorState returns a possibly-nil error.
+func ruleStickyError(c *Check, p *Program, rule string) {
+	en := stateEnum(p)
+	es := vset{{en["errorState"], en["errorState"]}}
+	for _, name := range []string{"Writer.Write", "Writer.Flush", "Writer.ReadFrom", "Reader.Read", "Reader.WriteTo"} {
+		fn := findFn(c, p, rule, "", name)
+		if fn == nil {
+			continue
+		}
+		sv := stateLoadOf(fn)
+		if sv == nil {
+			continue // the dispatch was moved into a helper: not decided here
+		}
+		sets := valueSetsAt(fn, sv, sv.(ssa.Instruction).Block(), 8)
+		bad := ""
+		n := 0
+		allInstrs(fn, func(in ssa.Instruction) {
+			r, ok := in.(*ssa.Return)
+			if !ok || len(r.Results) == 0 {
+				return
+			}
+			if len(sets[in.Block()].intersect(es)) == 0 {
+				return
+			}
+			n++
+			res := r.Results[len(r.Results)-1]
+			if ld, isLd := res.(*ssa.UnOp); isLd && ld.Op == token.MUL {
+				if al, isAl := ld.X.(*ssa.Alloc); isAl {
+					for _, j := range in.Block().Instrs {
+						if st, isS := j.(*ssa.Store); isS && st.Addr == ssa.Value(al) {
+							res = st.Val
+						}
+					}
+				}
+			}
+			if loadField(res) == "_State.err" {
+				return
+			}
+			if call, isC := res.(*ssa.Call); isC && calleeIs(call, pkgRoot, "_State.fail") {
+				return
+			}
+			if mayBeNilErr(res, in.Block()) {
+				bad = p.InstrPos(in)
+			}
+		})
+		c.Sites++
+		c.Cond(bad == "", rule, name+"#error-is-sticky", p.Pos(fn.Pos()), "every return of "+name+" that can be reached in errorState yields the latched error", fmt.Sprintf("%d such return(s)", n), "the return at "+bad+" is reachable with the object in errorState and may yield nil: the failure is forgotten (Close then completes the frame on a sink that lost data)")
+	}
+}
+
+// R17.17 / R08.16 / R18.14: a pool buffer is released once. After lz4block.Put(x.f) of a buffer held in a field, the
+// field is overwritten (nil or a new buffer) before the function returns: a later Reset / Close / end of stream
+// puts a non-nil field back, and the same slice would then be handed out twice by the pool.
+func ruleNoDoubleRelease(c *Check, p *Program, rule string, owners ...string) {
+	n := 0
+	for _, fn := range moduleFuncs(p, pkgRoot) {
+		ownerOK := len(owners) == 0
+		for _, o := range owners {
+			if recvTypeName(fn) == o {
+				ownerOK = true
+			}
+		}
+		if !ownerOK || fn.Parent() != nil {
+			continue
+		}
+		for _, ci := range callsIn(fn) {
+			if !calleeIs(ci, pkgBlock, "Put") || len(ci.Common().Args) != 1 {
+				continue
+			}
+			if _, isDefer := ci.(*ssa.Defer); isDefer {
+				continue
+			}
+			f := loadField(ci.Common().Args[0])
+			if f == "" {
+				continue // a local buffer
+			}
+			n++
+			c.Sites++
+			isStore := func(in ssa.Instruction) bool {
+				st, ok := in.(*ssa.Store)
+				return ok && lastField(st.Addr) == f
+			}
+			miss, _ := reachAvoid(fn, ci.(ssa.Instruction), isReturn, isStore)
+			c.Cond(!miss, rule, shortFn(fn)+"#released-field-overwritten:"+f, p.InstrPos(ci), "after a buffer held in "+f+" has been returned to the pool the field is overwritten before the function returns", "every path stores to "+f, f+" still refers to the released buffer when the function returns: the next Reset / Close / end of stream releases it again, and the pool hands the same slice to two users")
+		}
+	}
+	if len(owners) == 0 {
+		c.Cond(n >= 1, rule, "pool-release-of-fields", "", "releases of field-held pool buffers were found", fmt.Sprintf("%d sites", n), "no lz4block.Put of a field-held buffer found")
+	}
+}
+
+// R18.13: every failing Read ends the compressing reader. In the deferred epilogue of Read every path on which the
+// error result may be non-nil stores crStateDone (a retry after an error would skip the bytes already pulled from
+// the source into the input buffer).
+func ruleDoneOnEveryError(c *Check, p *Program, rule string) {
+	fn := findFn(c, p, rule, "", "CompressingReader.Read")
+	if fn == nil {
+		return
+	}
+	var ep *ssa.Function
+	allInstrs(fn, func(in ssa.Instruction) {
+		if d, ok := in.(*ssa.Defer); ok {
+			if mc, isMC := d.Call.Value.(*ssa.MakeClosure); isMC {
+				ep, _ = mc.Fn.(*ssa.Function)
+			} else if f := d.Call.StaticCallee(); f != nil && inModule(f) {
+				ep = f
+			}
+		}
+	})
+	if ep == nil || len(ep.Blocks) == 0 {
+		c.Fail(rule, "CompressingReader.Read#done-on-error", p.Pos(fn.Pos()), "Read has a deferred epilogue that ends the reader on error", "no deferred function found")
+		return
+	}
+	isDone := func(in ssa.Instruction) bool {
+		st, ok := in.(*ssa.Store)
+		if !ok || lastField(st.Addr) != "CompressingReader.state" {
+			return false
+		}
+		k, isK := constUint(st.Val)
+		return isK && k == 3
+	}
+	bad := ""
+	allInstrs(ep, func(in ssa.Instruction) {
+		if !isReturn(in) {
+			return
+		}
+		// a return of the epilogue that does not pass the store must lie on the err == nil side
+		pass := false
+		for _, j := range in.Block().Instrs {
+			if isDone(j) {
+				pass = true
+			}
+		}
+		if pass {
+			return
+		}
+		if r, _ := reachAvoid(ep, nil, func(j ssa.Instruction) bool { return j == in }, isDone); !r {
+			return
+		}
+		nilSide := false
+		for _, a := range atomsOfBlockLocal(in.Block()) {
+			if a.Kind == "errnil" && a.Val {
+				nilSide = true
+			}
+		}
+		// the join after `if err != nil { state = done }`: reachable avoiding the store only through the nil edge
+		if !nilSide {
+			onlyNil := true
+			for _, b := range ep.Blocks {
+				ifi, ok := b.Instrs[len(b.Instrs)-1].(*ssa.If)
+				if !ok {
+					continue
+				}
+				at := atomOf(ifi.Cond, true)
+				if at.Kind == "errnil" {
+					continue
+				}
+				// any other branch in the epilogue can route an error past the store
+				for _, s := range b.Succs {
+					if r, _ := reachAvoid(ep, s.Instrs[0], func(j ssa.Instruction) bool { return j == in }, isDone); r || s == in.Block() {
+						onlyNil = false
+					}
+				}
+			}
+			if !onlyNil {
+				bad = p.InstrPos(in)
+			}
+		}
+	})
+	c.Sites++
+	c.Cond(bad == "", rule, "CompressingReader.Read#done-on-every-error", p.Pos(ep.Pos()), "whenever Read returns an error the reader moves to its final state (the only branch of the epilogue that skips the transition is err == nil)", "the transition is skipped only on the err == nil edge", "the epilogue can return at "+bad+" without ending the reader although the error may be non-nil: a retry resumes mid-block and silently drops the bytes already taken from the source")
 }
